@@ -417,11 +417,24 @@ func instrIdx(in ssa.Instruction) int {
 	return -1
 }
 
-// writtenOnlyBefore: every write into src (whole or field stores, calls that
-// receive its address) is in a block that dominates the copy, or earlier in the
-// copy's block — after the copy the source is only read.
+// writtenOnlyBefore: no write into src (whole or field stores, calls that
+// receive its address) can execute after the copy — after the copy the source
+// is only read, so the copy is an exact snapshot of what the reads of src see.
+// (Calls are assumed not to retain the address beyond their return.)
 func writtenOnlyBefore(src *ssa.Alloc, cp *ssa.Store) bool {
 	okAll := true
+	// blocks that can execute after the copy's block
+	after := map[*ssa.BasicBlock]bool{}
+	work := append([]*ssa.BasicBlock{}, cp.Block().Succs...)
+	for len(work) > 0 {
+		b := work[len(work)-1]
+		work = work[:len(work)-1]
+		if after[b] {
+			continue
+		}
+		after[b] = true
+		work = append(work, b.Succs...)
+	}
 	var visit func(addr ssa.Value)
 	visit = func(addr ssa.Value) {
 		refs := addr.Referrers()
@@ -447,11 +460,7 @@ func writtenOnlyBefore(src *ssa.Alloc, cp *ssa.Store) bool {
 					continue
 				}
 				// a store into it, or its address handed to a call / stored away
-				if in.Block() == cp.Block() {
-					if instrIdx(in) > instrIdx(cp) {
-						okAll = false
-					}
-				} else if !in.Block().Dominates(cp.Block()) {
+				if after[in.Block()] || (in.Block() == cp.Block() && instrIdx(in) > instrIdx(cp)) {
 					okAll = false
 				}
 				if s, isStore := in.(*ssa.Store); isStore && s.Val == addr {
